@@ -87,7 +87,7 @@ def inst_all(vss, quick_vs=(33,), with_slow=True):
                 if not with_slow:
                     continue
                 # one of them rides in the quick tier so that the success path of put is exercised on every change
-                d.update(solver='minisat', timeout=3000)
+                d.update(solver='minisat', timeout=3000, weight=4)
                 if not (n == 11 and vs == 1):
                     d['tier'] = 'thorough'
             elif vs not in quick_vs:
